@@ -12,6 +12,7 @@ def main():
     ap.add_argument("--tier", default=os.environ.get("VERIF_TIER") or "quick")
     ap.add_argument("--replay")
     ap.add_argument("--only", help="run only scenarios whose name contains this")
+    ap.add_argument("--keyof", help="(internal) print the state key of the history in this file, replayed in this fresh interpreter")
     a = ap.parse_args()
     seed = int(os.environ.get("VERIF_SEED", "0") or 0)
     if a.tier == "thorough" and not os.environ.get("VERIF_SCENARIO_WALL"):
@@ -19,9 +20,32 @@ def main():
         os.environ["VERIF_SCENARIO_WALL"] = "1200"
     prop = a.prop.upper()
     mod = importlib.import_module("mc.props.%s" % prop.lower())
+    os.environ["VERIF_PROP"] = prop
+    os.environ["VERIF_TIER_CUR"] = a.tier
+    if a.keyof:
+        with open(a.keyof) as f:
+            body = json.load(f)
+        for sc in mod.scenarios(body.get("tier", a.tier)):
+            if sc.name == body["scenario"]:
+                w = sc.factory()
+                for e in body["events"]:
+                    w.apply(tuple(e))
+                print("KEY", w.key().hex())
+                sys.exit(0)
+        sys.exit(2)
     if a.replay:
         with open(a.replay) as f:
             body = json.load(f)
+        if body.get("oracle") == "instance-isolation":
+            # not a property of one history: re-run the scenario in one process until a replay disagrees with itself
+            from mc.core.explore import explore
+            for sc in mod.scenarios(body.get("tier", a.tier)):
+                if sc.name == body["scenario"]:
+                    res = explore(sc, nproc=1)
+                    for v in res.violations:
+                        print("VIOLATION-REPLAYED oracle=%s sig=%s: %s" % (v["oracle"], v.get("sig"), v["msg"]))
+                    sys.exit(1 if res.violations else 0)
+            sys.exit(2)
         sys.exit(mod.replay(body))
     from mc.core.report import Check
     chk = Check(prop, a.tier, seed, level=getattr(mod, "LEVEL", "model_checking"))
